@@ -39,15 +39,22 @@ var modeFinding = map[string]string{"wrong-phase-commit": bftscen.KFWrongPhase, 
 	"highqc-wrong-build-height-first": bftscen.KFBuildHeight}
 
 // allowance: failed correct-led rounds tolerated after GST. With a quorum in the front round: RSync. Otherwise no quorum
-// of correct replicas shares a round at GST: replicas that jump rounds are mis-aligned in time by up to a round length
-// and only the growth of the wait times with the round re-aligns them (nothing else does): twice the first-principles
-// cap (calibration: the largest observed need was 1.03 x cap).
+// of correct replicas shares a round at GST: a replica that cannot fast-forward (those ahead of it hold < 1/3) walks up
+// round by round and ends up mis-aligned in time by the sum of those round lengths, and only the growth of the wait times
+// with the round re-aligns replicas (nothing else does): the first-principles cap for that worst misalignment, + 2.
 func allowance(r *bs.SyncResult) int {
 	if r.Aligned {
 		return RSync
 	}
-	return RSync + 2*r.CapRounds + 2
+	return RSync + r.CapRounds + 2
 }
+
+// MaxCapRounds: beyond this first-principles cap the bounded-liveness assertion is not evaluated (the suffix still runs
+// ShortRun rounds for the safety and pacemaker-rule oracles): re-convergence by wait growth alone needs hundreds of rounds.
+const (
+	MaxCapRounds = 80
+	ShortRun     = 30
+)
 
 type histo struct {
 	mu sync.Mutex
@@ -155,7 +162,14 @@ func TestC15Liveness(t *testing.T) {
 			ForgedBuildHeightOnlyToLockedLeader: ev.Open(bftscen.KFBuildHeight),
 			// the run is finite: it stops when a correct replica passes twice the allowance (+10) - up to half of the rounds may
 			// be excused (Byzantine or lagging predicted leader)
-			Limit: func(r *bs.SyncResult) uint64 { return uint64(2*(allowance(r)+1) + 10) }})
+			Limit: func(r *bs.SyncResult) uint64 {
+				if !r.Aligned && r.CapRounds > MaxCapRounds {
+					return ShortRun
+				}
+				return uint64(2*(allowance(r)+1) + 10)
+			}})
+		boundSkipped := !sr.Aligned && sr.CapRounds > MaxCapRounds
+		c.ClassIf(boundSkipped, "liveness-bound-not-evaluated(cap>80-rounds)")
 		c.ClassIf(sr.Aligned, "quorum-in-front-round-at-gst")
 		c.ClassIf(!sr.Aligned, "quorum-spread-over-rounds-at-gst")
 		c.Class("byz=" + byzMode)
@@ -189,7 +203,7 @@ func TestC15Liveness(t *testing.T) {
 				ratio.add(m * 10 / sr.CapRounds)
 			}
 		}
-		if !calibrate {
+		if !calibrate && !boundSkipped {
 			if m > allow {
 				rt.Fatalf("C15 VIOLATION: %d rounds after GST (round %d -> %d) with only %d led by a Byzantine predicted leader: %d correct-led rounds failed, allowance %d (+1 for the round GST fell into); all committed=%v gaveUp=%q\ncase: %s\nschedule: %s",
 					sr.Elapsed, sr.RGst, sr.REnd, sr.ByzLed, m+1, allow, sr.AllCommitted, sr.GaveUp, res.Header(), bs.Wrap(s.Descriptor()))
